@@ -16,6 +16,9 @@ pub struct NodeView {
     pub raw_tx: bool,
     /// the node runs a DHCP client (may legitimately use 0.0.0.0)
     pub dhcp: bool,
+    /// addresses granted by DHCP ACKs that the client ingested in the poll being examined: the client
+    /// already holds them, the application has not yet seen the Configured event
+    pub dhcp_leased_unapplied: Vec<IpAddr>,
 }
 
 pub struct Tapped {
@@ -192,6 +195,16 @@ fn check_source_rule(view: &NodeView, ip: &Ip, pkt: &Packet) -> Result<(), Viola
         // raw sockets supply their own header; exempt
         if view.raw_tx {
             return Ok(());
+        }
+        if let Some(L4::Udp(u)) = &pkt.l4 {
+            if view.dhcp && u.sport == 68 && u.dport == 67 && view.dhcp_leased_unapplied.contains(src) {
+                return Err(viol(
+                    "C10",
+                    "source",
+                    "C10.source/dhcp-leased-address-before-the-application-applied-it",
+                    format!("DHCP REQUEST sourced from the leased address {} in the same poll that ingested the ACK granting it; the interface's addresses are {:?}: {}", src, view.addrs, pkt.summary()),
+                ));
+            }
         }
         if src.is_loopback() && !src.is_v4() {
             return Err(viol(
